@@ -4313,6 +4313,11 @@ func ruleMetaVerbatim(id string) func(*Checker) {
 		}
 		readKind := func(v ssa.Value) string {
 			switch x := v.(type) {
+			case *ssa.Call:
+				// a getter of PackageMeta is a read of what it returns (the getters themselves are checked below)
+				if g := x.Common().StaticCallee(); g != nil && g.Signature.Recv() != nil && isMetaOwner(g.Signature.Recv().Type()) == "meta" && len(x.Common().Args) == 1 {
+					return "meta"
+				}
 			case *ssa.UnOp:
 				if x.Op == token.MUL {
 					k, _ := fieldKind(x.X)
@@ -4350,6 +4355,10 @@ func ruleMetaVerbatim(id string) func(*Checker) {
 				return true, ""
 			case *ssa.Extract:
 				return true, "" // a decoded or looked-up value, not one of the two kinds of field
+			case *ssa.Call:
+				if readKind(x) == "meta" {
+					return true, ""
+				}
 			}
 			return false, fmt.Sprintf("%s (%T)", v.String(), v)
 		}
